@@ -7,3 +7,4 @@ import ChiaModel.Props.C03
 #print axioms ChiaModel.TL.applyCond_locks
 #print axioms ChiaModel.TL.condLoop_locks
 #print axioms ChiaModel.TL.spendLoop_locks
+#print axioms ChiaModel.C03.ephemeral_rule
